@@ -359,9 +359,16 @@ structure TurnDelayBuilt (α : Type) where
   model : AccessModel α
   featureName : String
 
-/-- `TurnDelayAccessModelBuilder::build(parameters)` -/
-def turnDelayBuild (dec : Nat → α) (cfg : Json) (headerOk : Bool) (file : Option (List HeadLine)) :
-    Except BErr (TurnDelayBuilt α) :=
+/-- some slot of the delay table holds a negative delay (a JSON number is never NaN) -/
+def hasNegativeDelay [LT α] [DecidableLT α] [Lit α] (ds : List (Option α)) : Bool :=
+  ds.any (fun d => match d with
+    | some x => decide (x < (zero : α))
+    | none => false)
+
+/-- `TurnDelayAccessModelBuilder::build(parameters)`; a delay table with a negative delay is refused
+(the reported time would run backwards along a route) -/
+def turnDelayBuild [LT α] [DecidableLT α] [Lit α] (dec : Nat → α) (cfg : Json) (headerOk : Bool)
+    (file : Option (List HeadLine)) : Except BErr (TurnDelayBuilt α) :=
   if !getPath cfg "edge_heading_input_file" file.isSome then .error .config
   else
     match file with
@@ -376,10 +383,12 @@ def turnDelayBuild (dec : Nat → α) (cfg : Json) (headerOk : Bool) (file : Opt
           match turnDelayModelOfJson dec m with
           | none => .error .model
           | some (tu, ds) =>
-            match cfg.get? "time_feature_name" with
-            | none => .ok { model := .turnDelay tu hs ds, featureName := "time" }
-            | some (.str s) => .ok { model := .turnDelay tu hs ds, featureName := s }
-            | some _ => .error .name
+            if hasNegativeDelay ds then .error .model
+            else
+              match cfg.get? "time_feature_name" with
+              | none => .ok { model := .turnDelay tu hs ds, featureName := "time" }
+              | some (.str s) => .ok { model := .turnDelay tu hs ds, featureName := s }
+              | some _ => .error .name
 
 /-! ### vehicle parameters -/
 
